@@ -263,6 +263,15 @@ def gen_cases(rng, tier):
         cases.append(("cnf", f, "rule"))
     for f in converse_shapes(m, uni):
         cases.append(("cnf", f, "converse"))
+    # roots that are not formulas (K only: both converters raise, the model says which exception)
+    xi, yi = uni.syms[INT][0], uni.syms[INT][1]
+    fi = [s for s in uni.funs if s.symbol_type().return_type.is_int_type() and len(s.symbol_type().param_types) == 1][0]
+    ai = uni.syms[ArrayType(INT, INT)][0]
+    bv = uni.syms[BVType(2)][0]
+    for f in [m.Int(1), xi, m.Plus(xi, m.Int(1)), m.Ite(uni.syms[BOOL][0], xi, m.Int(2)), m.Select(ai, xi),
+              m.Function(fi, [xi]), m.BV(1, 2), m.BVAdd(bv, bv), m.Store(ai, xi, yi), m.Times(xi, yi),
+              m.Ite(m.And(uni.syms[BOOL][0], uni.syms[BOOL][1]), m.Function(fi, [xi]), yi)]:
+        cases.append(("cnf", f, "non-boolean-root"))
     fg = gen.FormulaGen(rng, uni, max_depth=4, quant_prob=0.0, share_prob=0.3)
     n_rand = 350 if tier == "quick" else 9000
     for _ in range(n_rand):
@@ -386,6 +395,8 @@ def term_key(f, rename=None, ac=()):
 
 
 def is_atom(f, env):
+    if not env.stc.get_type(f).is_bool_type():
+        return False
     nt = f.node_type()
     if nt in CONNECTIVES or nt in (op.BOOL_CONSTANT, op.FORALL, op.EXISTS):
         return False
@@ -640,6 +651,9 @@ def search_cnf(ctx, env, runs, shape_ans, ig):
             ctx.case(nontriv)
             ctx.count("proc_" + r.which)
             ctx.count("root_" + root_name(f))
+            if r.err is not None and not env.stc.get_type(f).is_bool_type():
+                ctx.count("non_boolean_root_raises_" + r.err)      # outside the property; K compares the exception
+                continue
             if r.err is not None:
                 atom = next((a for a in bool_atoms(f, env) if a.is_select()), None)
                 ctx.report_s({"oracle": "total", "proc": r.which, "error": r.err,
